@@ -129,6 +129,11 @@ pub enum WKind {
     Transient,
     /// this step and every later step fail
     Permanent,
+    /// this step panics (a buggy writer / a user type's own impl panicking underneath): the
+    /// unwinding passes through cgmath's frames and is caught by the caller, as a server's
+    /// per-request catch_unwind or a thread pool does. Nothing is claimed about this operation;
+    /// what matters is that later operations on the same thread are unaffected.
+    Panic,
 }
 
 #[derive(Clone, Copy, PartialEq, Eq, Debug, Hash, Serialize, Deserialize)]
@@ -162,6 +167,8 @@ pub enum RFault {
     Dup { path: Vec<u8>, idx: u8, pos: u8 },
     /// read step `step` fails; with `permanent` every later step fails too (hard truncation)
     Err { step: u32, permanent: bool },
+    /// read step `step` panics (see WKind::Panic)
+    Panic { step: u32 },
 }
 
 impl RFault {
@@ -173,6 +180,7 @@ impl RFault {
             RFault::Dup { .. } => "R_DUP",
             RFault::Err { permanent: false, .. } => "R_ERR",
             RFault::Err { permanent: true, .. } => "R_TRUNC",
+            RFault::Panic { .. } => "R_PANIC",
         }
     }
     pub fn path(&self) -> Option<&[u8]> {
@@ -181,7 +189,7 @@ impl RFault {
             | RFault::Drop { path, .. }
             | RFault::Unknown { path, .. }
             | RFault::Dup { path, .. } => Some(path),
-            RFault::Err { .. } => None,
+            RFault::Err { .. } | RFault::Panic { .. } => None,
         }
     }
 }
